@@ -20,6 +20,17 @@ def replay_file(path):
         bad = r.get("ok") and (not r.get("same_tree") or r.get("reparse_errors") or not r.get("idempotent"))
         print("REPRODUCED (the formatted text does not parse back to the same tree)" if bad else "NOT REPRODUCED (same tree after formatting now)")
         return 1 if bad else 0
+    if "prql" in a and "expect_token" in a:
+        # lexer findings: lex the recorded source text with the current tree and compare the first token
+        r = drv.req(op="lex", prql=a["prql"])
+        toks = r.get("tokens") or []
+        print("source text:", repr(a["prql"]))
+        print("expected first token:", a["expect_token"], "span end:", a.get("expect_span_end"))
+        print("lexer now:", (toks[1] if len(toks) > 1 else toks) if r.get("ok") else r.get("errors"))
+        good = r.get("ok") and len(toks) > 1 and toks[1].get("kind") == a["expect_token"] and \
+            (a.get("expect_span_end") is None or toks[1]["span"]["end"] == a["expect_span_end"])
+        print("NOT REPRODUCED (the token is the expected one now)" if good else "REPRODUCED")
+        return 0 if good else 1
     if "prql" in a and "text" in a and art.get("property") == "C08" and "lexed" not in a:
         # string-literal findings: compile with the current tree, execute on SQLite, compare the value with the text
         import sqlite3
